@@ -140,7 +140,8 @@ class TWorld(object):
     if self.proto == 'kafka':
       self.net.add_endpoint('h0', 1000, lambda net, c: KafkaTagPeer(net, c, self.server_log))
     else:
-      self.net.add_endpoint('h0', 1000, lambda net, c: peers.MuxPeer(net, c, self.H.Processor, peers.EchoHandler, self.server_log))
+      self.net.add_endpoint('h0', 1000, lambda net, c: peers.MuxPeer(net, c, self.H.Processor, peers.EchoHandler, self.server_log,
+                                                                      params.get('peer_script')))
     self.props = {SinkProperties.Endpoint: Endpoint('h0', 1000), SinkProperties.Label: 'svc'}
     self.term = stubs.make_terminal_class()()
     self.viol = []
@@ -476,6 +477,9 @@ def scenarios(tier):
               {'ops': [['req', 'a', True], ['req', 'b', True], ['req', 'c']], 'max_adversarial': 1, 'max_preempt': 1, '_bound': 2}))
   out.append(('4 sequential-ish requests, the peer may answer with Rerr / BAD_Rerr',
               {'ops': [['req', 'a'], ['req', 'b'], ['req', 'c', True], ['req', 'd']], 'max_adversarial': 0, 'error_replies': True, '_bound': 2}))
+  out.append(('4 requests, 2 with deadlines; the peer acknowledges discards (Rdiscarded)',
+              {'ops': [['req', 'a', True], ['req', 'b', True], ['req', 'c'], ['req', 'd']], 'max_adversarial': 0,
+               'peer_script': {'ack_discards': True}}))
   out.append(('send buffer full while 3 requests queue up, then drains; one more request',
               {'ops': [['block'], ['req', 'x'], ['req', 'a', True], ['req', 'b'], ['unblock'], ['req', 'c']], 'max_adversarial': 1}))
   # tags beyond 16 bits: the counter jumps as if the tags in between were held by requests that were never answered
